@@ -43,7 +43,7 @@ PROPS = {
     "C02": P("stablecomp", "TestC02"),
     "C03": P("stablecomp", "TestC03"),
     "C04": P("stablecomp", "TestC04"),
-    "C09": P("stablecomp", "TestC09", race=True),
+    "C09": P("stablecomp", "TestC09", race=True, batches=(2, 4), workers=8),
     "C10": P("stablecomp", "TestC10"),
     "C15": P("stablecomp", "TestC15"),
     "C18": P("stablecomp", "TestC18"),
